@@ -308,6 +308,14 @@ class World:
             return f * self.vars[c["y"]]
         if op == "mulnum":
             return f * int(a["c"])
+        if op == "q_meshclose":
+            return bool(f.mesh.allclose(self.vars[c["y"]].mesh))
+        if op == "q_fieldclose":
+            return bool(f.allclose(self.vars[c["y"]]))
+        if op == "q_regionin":
+            return bool(self.vars[c["y"]].mesh.region in f.mesh.region)
+        if op == "q_aligned":
+            return bool(f.mesh.is_aligned(self.vars[c["y"]].mesh))
         if op == "sub":
             return f - self.vars[c["y"]]
         if op == "dot":
@@ -400,6 +408,9 @@ class World:
         self.last_cond = ""
         op = c["op"]
         first = None
+        if op.startswith("q_"):
+            self._gc()
+            return ("true" if ret else "false"), False, None
         if op in GEO:
             if not c["ip"]:
                 self.vars[c["dst"]] = ret
